@@ -670,14 +670,12 @@ class Client:
         ret: List[str] = []
         active_script: str = None
         for l in listing.splitlines():
-            if self.__size_expr.match(l):
-                continue
-            m = re.match(rb'"([^"]+)"\s*(.+)', l)
+            m = self.__quoted_expr.match(l)
             if m is None:
                 ret += [l.strip(b'"').decode("utf-8")]
                 continue
-            script = m.group(1).decode("utf-8")
-            if self.__active_expr.match(m.group(2)):
+            script = re.sub(rb"\\(.)", rb"\1", m.group(1)).decode("utf-8")
+            if self.__active_expr.match(l[m.end() :]):
                 active_script = script
                 continue
             ret += [script]
